@@ -53,7 +53,9 @@ for _name, _sym in (("add", "+"), ("sub", "-"), ("mul", "*"), ("truediv", "/"), 
     setattr(NC, f"__r{_name}__", (lambda sym: lambda self, o: NC(f"({_nc_text(o)}{sym}{self.s})") if _nc_scalar(o) else NotImplemented)(_sym))
 
 # pools that only some families use: a mixed-type (object dtype) vector (C06), non-commutative elements (C05)
-EXTRA = {"obj": [1, "a", 2.5, "b", (1, 2)], "nc": [NC("a"), NC("b")]}
+EXTRA = {"obj": [1, "a", 2.5, "b", (1, 2)], "nc": [NC("a"), NC("b")],
+         # printf-style templates with exactly one slot, and arguments for them (a one-element tuple is an argument too)
+         "tmpl": ["%s!", "<%s>", "%r|", "%5s"], "targ": ["x", "", ("a",), "long text"]}
 
 
 def pool(t):
